@@ -494,6 +494,61 @@ impl crate::platform::Relaxation for Relaxation {
     }
 }
 
+/// Runs `new_relaxation` and, when it picks a relaxation, applies it to a copy of `bytes`. Output
+/// kinds: 0/1 static executable (non-relocatable/relocatable), 2/3 dynamic executable, 4 shared
+/// object, 5 relocatable.
+#[cfg(feature = "verif_hooks")]
+#[allow(clippy::type_complexity)]
+pub(crate) fn verif_new_relaxation(
+    r_type: u32,
+    bytes: &[u8],
+    offset: u64,
+    flag_bits: u16,
+    output_kind: u8,
+    exec: bool,
+    addend: i64,
+) -> Option<(String, String, bool, Vec<u8>, u64, i64, bool)> {
+    use crate::args::RelocationModel;
+    use crate::platform::Arch as _;
+    use crate::platform::Relaxation as _;
+    let output_kind = match output_kind {
+        0 => OutputKind::StaticExecutable(RelocationModel::NonRelocatable),
+        1 => OutputKind::StaticExecutable(RelocationModel::Relocatable),
+        2 => OutputKind::DynamicExecutable(RelocationModel::NonRelocatable),
+        3 => OutputKind::DynamicExecutable(RelocationModel::Relocatable),
+        4 => OutputKind::SharedObject,
+        _ => OutputKind::Relocatable,
+    };
+    let section_flags = if exec {
+        shf::EXECINSTR
+    } else {
+        SectionFlags::empty()
+    };
+    let r = ElfX86_64::new_relaxation(
+        r_type,
+        bytes,
+        offset,
+        ValueFlags::from_bits_retain(flag_bits),
+        output_kind,
+        section_flags,
+        true,
+        None,
+    )?;
+    let mut out = bytes.to_owned();
+    let mut offset = offset;
+    let mut addend = addend;
+    r.apply(&mut out, &mut offset, &mut addend);
+    Some((
+        format!("{:?}", r.debug_kind()),
+        format!("{:?}", r.rel_info()),
+        r.is_mandatory(),
+        out,
+        offset,
+        addend,
+        r.next_modifier() == RelocationModifier::SkipNextRelocation,
+    ))
+}
+
 enum TlsGdForm {
     Regular,
     Large,
